@@ -145,7 +145,7 @@ func (s Slice) Hash() uint64 {
 // Interface returns the slice as a generic interface.
 func (s Slice) Interface() any {
 	if len(s.value) == 0 {
-		return nil
+		return []any{}
 	}
 
 	var elementType reflect.Type
